@@ -317,6 +317,9 @@ def run(ctx):
     ctx.rule("R19.7", "nothing in the dl / env wrappers reads a local or parameter after handing it to std::move (a moved-from shared_ptr is null: dlsym(nullptr, name) searches the global scope)")
     from .common import rule_no_use_after_move
     rule_no_use_after_move(ctx, "R19.7", lambda g: "/nitro/dl/" in g.file or "/env/" in g.file, "a moved-from handle is null", minimum=5)
+    ctx.rule("R19.9", "hand-written copy / move operations of dl and symbol take over every member - the function pointer together with the library handle that keeps it valid")
+    from .common import rule_special_members_complete
+    rule_special_members_complete(ctx, "R19.9", lambda cn: cn.startswith("nitro::dl::"), "a symbol that points into one library while holding another one's handle dangles once that library's last owner is gone", minimum=0)
     ctx.rule("R19.8", "no catch handler in the dl / env wrappers lets a failure vanish or turns the documented error into another class: a library or symbol that cannot be loaded, a variable that is not set, is reported to the caller")
     from .common import rule_handlers
     rule_handlers(ctx, "R19.8", lambda g: "/nitro/dl/" in g.file or "/env/" in g.file, ("nitro::dl::exception", "nitro::except::exception"), "the failure has to reach the caller as the documented exception", minimum=5)
